@@ -414,6 +414,10 @@ pub fn encode_with_head(v: &V, path: &[Step], w: u8) -> Option<Vec<u8>> {
             if here {
                 if w == 255 {
                     out.push(major << 5 | 31);
+                } else if (28..=31).contains(&w) {
+                    // reserved additional-information values (and 31 on a major type that has no
+                    // indefinite form): malformed CBOR
+                    out.push(major << 5 | w);
                 } else {
                     head_width(major, n, w, out);
                 }
@@ -505,6 +509,16 @@ pub fn type_samples() -> Vec<(&'static str, V)> {
         ("array", V::A(vec![V::text("zz")])),
         ("map", V::M(vec![(V::text("zz"), V::text("yy"))])),
         ("bool", V::Bool(true)),
+        // second sample of each class: the empty / smallest value
+        ("unsigned", V::U(0)),
+        ("negative", V::N(0)),
+        ("bytes", V::B(vec![])),
+        ("text", V::text("")),
+        ("array", V::A(vec![V::U(1), V::U(2), V::U(3)])),
+        ("array", V::A(vec![])),
+        ("map", V::M(vec![(V::U(1), V::U(2))])),
+        ("map", V::M(vec![])),
+        ("bool", V::Bool(false)),
     ]
 }
 
